@@ -15,10 +15,10 @@ open Mpir.DivZ (sizeNat siz sameSign)
 
 /-- the C as it is, and wrong versions for the negative examples -/
 structure FVariant3 where
-  scanBeforeMove : Bool := true   -- ceilfloor.c:81-100: the dropped limbs of u are inspected before anything is stored through rp
-  copyIncr : Bool := true         -- ceilfloor.c:105, trunc.c:65, mul_2exp.c:94, div_2exp.c:100: MPN_COPY_INCR (not MPN_COPY_DECR)
-  rshiftWhenLong : Bool := true   -- mul_2exp.c:105-113, div_2exp.c:111-118: mpn_rshift into rp+1 when u is longer than prec
-  copyV : Bool := true            -- ui_div.c:85-90 "ensure divisor doesn't overlap quotient"
+  scanBeforeMove : Bool := true   -- ceilfloor.c:79-99: the dropped limbs of u are inspected before anything is stored through rp
+  copyIncr : Bool := true         -- ceilfloor.c:103, trunc.c:65, mul_2exp.c:95, div_2exp.c:101: MPN_COPY_INCR (not MPN_COPY_DECR)
+  rshiftWhenLong : Bool := true   -- mul_2exp.c:102-113, div_2exp.c:108-118: mpn_rshift into rp+1 when u is longer than prec
+  copyV : Bool := true            -- ui_div.c:86-91 "ensure divisor doesn't overlap quotient"
   deriving Repr
 
 def FVariant3.c : FVariant3 := {}
@@ -35,42 +35,42 @@ def mpn_add_1_off (rp up uoff n c : Nat) (s : St) : R (Nat × St) := do
   let s ← s.storeAt rp 0 (toLimbs n (val a + c))
   pure ((val a + c) / B ^ n, s)
 
-/-- mpf_ceil_or_floor (r, u, dir): mpf/ceilfloor.c:35-106; dir = 1 ceil, -1 floor. -/
+/-- mpf_ceil_or_floor (r, u, dir): mpf/ceilfloor.c:34-104; dir = 1 ceil, -1 floor. -/
 def mpf_ceilfloorV (V : FVariant3) (r u : Nat) (dir : Int) (s : FSt) : R FSt := do
-  let size := s.st.size u                                     -- ceilfloor.c:42
-  if size = 0 then pure (s.setSE r 0 0)                       -- :43-49
+  let size := s.st.size u                                     -- ceilfloor.c:41
+  if size = 0 then pure (s.setSE r 0 0)                       -- :42-48
   else
-    let rp := s.st.ptr r                                      -- :51
-    let exp := s.exp u                                        -- :52
-    if exp ≤ 0 then                                           -- :53 u is only a fraction
-      if decide (size < 0) != decide (dir < 0) then pure (s.setSE r 0 0)   -- :56-57 (size ^ dir) < 0: goto zero
+    let rp := s.st.ptr r                                      -- :50
+    let exp := s.exp u                                        -- :51
+    if exp ≤ 0 then                                           -- :52 u is only a fraction
+      if decide (size < 0) != decide (dir < 0) then pure (s.setSE r 0 0)   -- :55-56 (size ^ dir) < 0: goto zero
       else do
-        let st ← s.st.storeAt rp 0 [1]                        -- :58 rp[0] = 1
-        pure ((s.withSt st).setSE r dir 1)                    -- :59-60
+        let st ← s.st.storeAt rp 0 [1]                        -- :57 rp[0] = 1
+        pure ((s.withSt st).setSE r dir 1)                    -- :58-59
     else
-      let s1 := s.setExp r exp                                -- :64 EXP(r) = exp
-      let up := s.st.ptr u                                    -- :66
-      let asize0 := size.natAbs                               -- :67
-      let asize := min (min asize0 exp.toNat) (s.prec r + 1)  -- :71, :74, :77
-      let uoff := asize0 - asize                              -- :68, :79  up += asize0; up -= asize
+      let s1 := s.setExp r exp                                -- :62 EXP(r) = exp
+      let up := s.st.ptr u                                    -- :64
+      let asize0 := size.natAbs                               -- :65
+      let asize := min (min asize0 exp.toNat) (s.prec r + 1)  -- :69, :72, :75
+      let uoff := asize0 - asize                              -- :66, :77  up += asize0; up -= asize
       let sgn (n : Nat) : Int := if size ≥ 0 then (n : Int) else -(n : Int)
-      let sameDir : Bool := decide (size < 0) == decide (dir < 0)          -- :81 (size ^ dir) >= 0
+      let sameDir : Bool := decide (size < 0) == decide (dir < 0)          -- :79 (size ^ dir) >= 0
       if V.scanBeforeMove then do
-        -- :85-87 for (p = PTR(u); p != up; p++) if (*p != 0)
+        -- :83-85 for (p = PTR(u); p != up; p++) if (*p != 0)
         let round ← (if sameDir then do
             let ign ← s1.st.loadAt up 0 uoff
             pure (ign.any (· != 0))
           else pure false)
         if round then do
-          let (cy, st) ← mpn_add_1_off rp up uoff asize 1 s1.st      -- :89
+          let (cy, st) ← mpn_add_1_off rp up uoff asize 1 s1.st      -- :87
           if cy ≠ 0 then do
-            let st ← st.storeAt rp 0 [1]                             -- :93 rp[0] = 1
-            let s2 := (s1.withSt st).setExp r (exp + 1)              -- :94-95 asize = 1; EXP(r)++
-            pure (s2.withSt (s2.st.setSize r (sgn 1)))               -- :97
-          else pure (s1.withSt (st.setSize r (sgn asize)))           -- :97
+            let st ← st.storeAt rp 0 [1]                             -- :91 rp[0] = 1
+            let s2 := (s1.withSt st).setExp r (exp + 1)              -- :92-93 asize = 1; EXP(r)++
+            pure (s2.withSt (s2.st.setSize r (sgn 1)))               -- :95
+          else pure (s1.withSt (st.setSize r (sgn asize)))           -- :95
         else do
-          let st := s1.st.setSize r (sgn asize)                      -- :103
-          let st ← copyTop V.copyIncr rp up uoff asize st            -- :104-105
+          let st := s1.st.setSize r (sgn asize)                      -- :101
+          let st ← copyTop V.copyIncr rp up uoff asize st            -- :102-103
           pure (s1.withSt st)
       else do
         -- (wrong variant) the integer limbs are moved first, the dropped limbs are looked at afterwards, through PTR(u)
@@ -90,9 +90,9 @@ def mpf_ceilfloorV (V : FVariant3) (r u : Nat) (dir : Int) (s : FSt) : R FSt := 
         else pure (s1.withSt st)
 
 def mpf_ceilfloor := mpf_ceilfloorV .c
-/-- mpf_floor (r, u): ceilfloor.c:116-120 -/
+/-- mpf_floor (r, u): ceilfloor.c:114-118 -/
 def mpf_floor (r u : Nat) (s : FSt) : R FSt := mpf_ceilfloor r u (-1) s
-/-- mpf_ceil (r, u): ceilfloor.c:109-113 -/
+/-- mpf_ceil (r, u): ceilfloor.c:107-111 -/
 def mpf_ceil (r u : Nat) (s : FSt) : R FSt := mpf_ceilfloor r u 1 s
 
 /-- mpf_trunc (r, u): mpf/trunc.c:30-66. -/
@@ -149,18 +149,18 @@ def mpf_2expV (V : FVariant3) (mul : Bool) (r u e : Nat) (s : FSt) : R FSt := do
             let st ← st.storeAt rp abs_usize [cy]
             pure (abs_usize, (if cy ≠ 0 then 1 else 0), st)
         else do
-          let (cy, st) ← mpn_lshift rp 0 up 0 abs_usize k s.st             -- :116 / :122-123
-          let st ← st.storeAt rp abs_usize [cy]                             -- :117 / :124
-          pure (abs_usize, (if cy ≠ 0 then 1 else 0), st))                  -- :118 / :125
-      let abs_usize := abs_usize + adj                                      -- :121 / :128
+          let (cy, st) ← mpn_lshift rp 0 up 0 abs_usize k s.st             -- :116 / :121-122
+          let st ← st.storeAt rp abs_usize [cy]                             -- :117 / :123
+          pure (abs_usize, (if cy ≠ 0 then 1 else 0), st))                  -- :118 / :124
+      let abs_usize := abs_usize + adj                                      -- :121 / :127
       let s1 := (s.withSt st).setExp r (if mul then uexp + (e / 64 : Nat) + (adj : Nat)
-                                        else uexp - (e / 64 : Nat) - 1 + (adj : Nat))   -- :122 / :129
+                                        else uexp - (e / 64 : Nat) - 1 + (adj : Nat))   -- :122 / :128
       pure (s1.withSt (s1.st.setSize r (sgn abs_usize)))                    -- :124 / :130
 
 def mpf_mul_2exp (r u e : Nat) (s : FSt) : R FSt := mpf_2expV .c true r u e s
 def mpf_div_2exp (r u e : Nat) (s : FSt) : R FSt := mpf_2expV .c false r u e s
 
-/-- mpf_ui_div (r, u, v): mpf/ui_div.c:30-119 (BITS_PER_UI == GMP_NUMB_BITS: :97-107 compiled out; `u` one limb).  The TMP
+/-- mpf_ui_div (r, u, v): mpf/ui_div.c:30-119 (BITS_PER_UI == GMP_NUMB_BITS: :96-106 compiled out; `u` one limb).  The TMP
     areas are separate blocks, as under WANT_TMP_DEBUG (:68-76). -/
 def mpf_ui_divV (V : FVariant3) (r : Nat) (u : Nat) (v : Nat) (s : FSt) : R FSt := do
   let vs := s.st.size v                                       -- ui_div.c:41
@@ -177,21 +177,21 @@ def mpf_ui_divV (V : FVariant3) (r : Nat) (u : Nat) (v : Nat) (s : FSt) : R FSt 
     let tsize := prec + vsize
     let r1 := s.st.tmpAlloc vsize                             -- :71 remp
     let remp := r1.1
-    let r2 := r1.2.malloc (List.replicate (tsize - 1) 0 ++ [u])   -- :72 tp, :92 MPN_ZERO (tp, tsize-1), :94 tp[tsize-1] = u
+    let r2 := r1.2.malloc (List.replicate (tsize - 1) 0 ++ [u])   -- :72 tp, :93 MPN_ZERO (tp, tsize-1), :95 tp[tsize-1] = u
     let tp := r2.1
     let st := r2.2
-    -- :85-90 ensure divisor doesn't overlap quotient
+    -- :86-91 ensure divisor doesn't overlap quotient
     let (vp, t2, st) ← (if V.copyV ∧ rp = vp then do
-        let r3 ← st.tmpCopy vp vsize                          -- :75, :88
-        pure (r3.1, [r3.1], r3.2)                             -- :89
+        let r3 ← st.tmpCopy vp vsize                          -- :75, :89
+        pure (r3.1, [r3.1], r3.2)                             -- :90
       else pure (vp, [], st))
-    let st ← mpn_tdiv_qr rp remp tp tsize vp vsize st         -- :110
-    let top ← limbAt st rp (rsize - 1)                        -- :113 high_zero = (rp[rsize-1] == 0)
+    let st ← mpn_tdiv_qr rp remp tp tsize vp vsize st         -- :109
+    let top ← limbAt st rp (rsize - 1)                        -- :112 high_zero = (rp[rsize-1] == 0)
     let hz := if top = 0 then 1 else 0
-    let rsize := rsize - hz                                   -- :114
-    let rexp := rexp - hz                                     -- :115
-    let s' := (s.withSt st).setSE r (if vs ≥ 0 then (rsize : Int) else -(rsize : Int)) rexp   -- :117-118
-    pure (s'.withSt ((remp :: tp :: t2).foldl St.free s'.st)) -- :119 TMP_FREE
+    let rsize := rsize - hz                                   -- :113
+    let rexp := rexp - hz                                     -- :114
+    let s' := (s.withSt st).setSE r (if vs ≥ 0 then (rsize : Int) else -(rsize : Int)) rexp   -- :116-117
+    pure (s'.withSt ((remp :: tp :: t2).foldl St.free s'.st)) -- :118 TMP_FREE
 
 def mpf_ui_div := mpf_ui_divV .c
 
